@@ -32,7 +32,9 @@ InitS(e) == [single |-> e.single, con |-> e.con, xf |-> EmptyFn, failed |-> {}, 
              nsrv |-> EmptyFn,    \* x -> number of server handler invocations
              succ |-> EmptyFn, concl |-> {}, bw1 |-> {}, bw2 |-> {},
              bodies |-> EmptyFn,  \* serial -> [x, bid, len]
+             lastCon |-> -1, lastAcked |-> TRUE,   \* message id of the client's latest Confirmable request and whether an ACK for it got through
              replayed |-> {},     \* transfers for which KF_C09_EVERY_BLOCK_ARRIVED_AGAIN fired (how they end is part of that finding)
+             gen |-> 0,           \* number of times the client application was told (COAP_EVENT_PARTIAL_BLOCK) that a transfer starts over
              rel |-> << >>]
 XOfTok(st, tok) == {x \in DOMAIN st.xf : st.xf[x].tok = tok}
 XOfB1(st, bid)  == {x \in DOMAIN st.xf : st.xf[x].l1 >= 0 /\ st.xf[x].b1 = bid}
@@ -50,7 +52,10 @@ R(st, why) == [st |-> st, why |-> why, kf |-> "", disc |-> FALSE]
 K(st, id)  == [st |-> st, why |-> "", kf |-> id, disc |-> FALSE]
 
 OnWire(st, e) ==
-  LET st1 == [st EXCEPT !.faults = @ \/ e.v \in {"d", "2", "l"},
+  LET st0 == IF e.node = "c" /\ e.ty = 0 /\ e.code >= 1 /\ e.code <= 31 THEN [st EXCEPT !.lastCon = e.mid, !.lastAcked = FALSE]
+             ELSE IF e.node = "s" /\ e.ty = 2 /\ e.mid = st.lastCon /\ e.v # "d" THEN [st EXCEPT !.lastAcked = TRUE]
+             ELSE st
+      st1 == [st0 EXCEPT !.faults = @ \/ e.v \in {"d", "2", "l"},
                         !.mism = @ \/ (e.node = "s" /\ e.len > st.cm) \/ (e.node = "c" /\ e.len > st.sm)]
       isReq == e.code >= 1 /\ e.code <= 31
       isOk  == e.code >= 64 /\ e.code <= 95
@@ -85,6 +90,9 @@ OnWire(st, e) ==
 
 OnSrvReq(st, e) ==
   IF e.x \notin DOMAIN st.xf THEN R(st, "C09:server-handler-ran-for-a-request-nobody-made")
+  ELSE IF e.b2 # << >> /\ e.b2[1] > 0 /\ e.n = 0
+  THEN R([st EXCEPT !.nsrv = Put(@, e.x, Get(@, e.x, 0) + 1)], "")     \* a request for a LATER block of the response (it never carries the request body, RFC 7959 3.3)
+                                                                        \* reaching the handler because the server's cached response has expired: not a body delivery
   ELSE
   LET t == st.xf[e.x]
       prev == Get(st.sdel, e.x, << >>)
@@ -130,7 +138,7 @@ OnResp(st, e) ==
   ELSE
   LET nsucc == Get(st.succ, x, 0) + 1
       last == st.single \/ t.l2 < 0 \/ e.b2 = << >> \/ e.b2[2] = 0
-      st1 == [st EXCEPT !.succ = Put(@, x, nsucc), !.cdel = Put(@, x, Append(prev, [off |-> e.off, n |-> e.n])),
+      st1 == [st EXCEPT !.succ = Put(@, x, nsucc), !.cdel = Put(@, x, Append(prev, [off |-> e.off, n |-> e.n, gen |-> st.gen])),
                         !.concl = IF last THEN @ \cup {x} ELSE @]
       srvGot == Get(st.sdel, x, << >>)
   IN
@@ -143,11 +151,12 @@ OnResp(st, e) ==
        ELSE IF nsucc > 1 /\ x \in st.bw2 THEN R(st1, "C09:response-body-delivered-more-than-once")
        ELSE R(st1, "")
   ELSE LET B == IF e.b2 # << >> THEN BlockSize(e.b2[3]) ELSE IF t.l2 = 0 THEN 16 ELSE t.l2
-           repeat == \E k \in 1..Len(prev) : prev[k].off = e.off
+           repeat == \E k \in 1..Len(prev) : prev[k].off = e.off /\ prev[k].gen = st.gen     \* not across an announced restart (the body changed)
        IN IF e.b2 = << >> /\ ~(e.off = 0 /\ e.n = t.l2) THEN R(st1, "C09:client-got-something-other-than-the-senders-body")
           ELSE IF e.b2 # << >> /\ ~IsBlockOf([d EXCEPT !.total = IF e.total = 0 THEN t.l2 ELSE e.total], t.b2, t.l2, B)
                THEN R(st1, "C09:client-got-a-block-that-is-no-aligned-slice-of-the-body")
-          ELSE IF repeat /\ ~st.faults /\ ~st.mism THEN R(st1, "C09:block-delivered-twice-without-any-loss-or-duplication")
+          ELSE IF repeat /\ ~st.mism /\ x \notin st.concl
+               THEN R(st1, "C09:response-block-delivered-twice")      \* the client keeps the set of blocks it has (rec_blocks): a duplicate is not news
           ELSE R(st1, "")
 
 OnNack(st, e) ==
@@ -178,7 +187,8 @@ OnEnd(st) ==
   ELSE IF unrelS # {} THEN R(st, "C09:response-body-never-released")
   ELSE IF st.mism THEN [st |-> st, why |-> "", kf |-> "", disc |-> TRUE]
   ELSE IF ~st.faults /\ \E x \in live \ st.failed : ~ok(x) THEN R(st, "C09:undisturbed-transfer-did-not-complete-exactly-once")
-  ELSE IF st.con /\ \E x \in live \ (st.failed \cup st.replayed) : x \notin st.concl THEN R(st, "C09:abandoned-confirmable-transfer-never-reported-to-the-requester")
+  ELSE IF st.con /\ ~st.lastAcked /\ \E x \in live \ (st.failed \cup st.replayed) : x \notin st.concl
+       THEN R(st, "C09:abandoned-confirmable-transfer-never-reported-to-the-requester")    \* an acknowledged request whose separate (NON) answer is lost is not an abandoned exchange
   ELSE R(st, "")
 
 Step(st, e) ==
@@ -191,6 +201,7 @@ Step(st, e) ==
     [] e.e = "Resp" -> OnResp(st, e)
     [] e.e = "Nack" -> OnNack(st, e)
     [] e.e = "Release" -> OnRelease(st, e)
+    [] e.e = "Partial" -> R([st EXCEPT !.gen = @ + 1], "")
     [] e.e = "End" -> OnEnd(st)
     [] e.e = "Hang" -> R(st, "C09:endpoints-never-became-quiet")
     [] e.e = "Crash" -> R(st, "C09:run-aborted-or-sanitizer-report")
